@@ -64,6 +64,25 @@ def c01stepCore (s : State Tbl) (cmd : String) (args : List String) : State Tbl 
   | "select", [p] => match p.toNat? with | some p => run (.select p) | none => bad
   | "selectfu", [p] => match p.toNat? with | some p => run (.selectForUpdate p) | none => bad
   | "dml", [p, k, a] => match p.toNat?, a.toInt? with | some p, some a => run (.dml p (dmlFn k a)) | _, _ => bad
+  | "selectfu2", [p, q, form] =>
+    -- SELECT v FROM p UNION|EXCEPT|INTERSECT SELECT v FROM q FOR UPDATE: both tables loaded for update, p first
+    match p.toNat?, q.toNat? with
+    | some p, some q =>
+      match load s p true with
+      | none => (s, showOut (Out.failed : Out Tbl) ++ "|" ++ showState s)
+      | some (s1, cp) =>
+        match load s1 q true with
+        | none => (s1, showOut (Out.failed : Out Tbl) ++ "|" ++ showState s1)
+        | some (s2, cq) =>
+          let rows : Option (List Int) :=
+            if form = "union" then some (cp.2 ++ cq.2).eraseDups
+            else if form = "except" then some (cp.2.eraseDups.filter (fun x => !cq.2.contains x))
+            else if form = "intersect" then some (cp.2.eraseDups.filter (fun x => cq.2.contains x))
+            else none
+          match rows with
+          | some rows => (s2, showOut (Out.rows ((0, rows) : Tbl)) ++ "|" ++ showState s2)
+          | none => bad
+    | _, _ => bad
   | "selectfu2", [p, q] =>
     -- SELECT a.v FROM p a JOIN q b ON a.v = b.v FOR UPDATE: both tables are loaded for update, p first
     match p.toNat?, q.toNat? with
